@@ -109,6 +109,25 @@ class Check:
         raw = fi.module.__dict__['_raw_funcs'] = shapes.raw_functions(fi.module.src)
       node = raw.get(fi.qualname)
       cur = shapes.distance(fi.module.relpath, fi.qualname, node) if node is not None else None
+      if cur is not None and node is not None:
+        # code moved into (or out of) a function the reference tree does not have: a restructuring, however few statements
+        # of this function changed
+        from fjsa import inline
+        known = inline.known_defs(fi.module.relpath) or set()
+        module_defs = {q.split('.')[-1] for q in raw}
+        import ast as _ast
+        for x in _ast.walk(node):
+          nm = None
+          if isinstance(x, _ast.Call):
+            if isinstance(x.func, _ast.Name):
+              nm = x.func.id
+            elif isinstance(x.func, _ast.Attribute) and isinstance(x.func.value, _ast.Name) and x.func.value.id in ('self', 'cls'):
+              nm = x.func.attr
+          elif isinstance(x, (_ast.FunctionDef, _ast.AsyncFunctionDef)) and x is not node:
+            nm = x.name
+          if nm is not None and nm in module_defs and nm not in known:
+            cur = None
+            break
       cache[k] = cur
     return cache[k]
 
